@@ -500,6 +500,52 @@ pub const DYN: [TimeScale; 2] = [TimeScale::ET, TimeScale::TDB];
 pub const UNIF: [TimeScale; 6] = [TimeScale::TAI, TimeScale::TT, TimeScale::GPST, TimeScale::GST, TimeScale::BDT, TimeScale::QZSST];
 
 impl<'a> EM<'a> {
+    /// the ET / TDB accessors: the count since J2000 as a duration, the JDE duration, and the float views of both
+    pub fn dyn_view(&mut self, dy: TimeScale) {
+        let a = self.e;
+        let et = dy == TimeScale::ET;
+        let dur = catch(|| if et { a.to_et_duration() } else { a.to_tdb_duration() });
+        let jde = catch(|| if et { a.to_jde_et_duration() } else { a.to_jde_tdb_duration() });
+        let mut views: Vec<String> = Vec::new();
+        let mut push = |b: u8, u: Unit, r: Result<f64, String>| {
+            let v = match r {
+                Ok(x) => jf64(x),
+                Err(p) => jpanic(&p),
+            };
+            views.push(format!("{{\"b\":{},\"u\":{},\"v\":{}}}", b, unit_idx(u), v));
+        };
+        if et {
+            push(0, Unit::Second, catch(|| a.to_et_seconds()));
+            push(0, Unit::Day, catch(|| a.to_et_days_since_j2000()));
+            push(0, Unit::Century, catch(|| a.to_et_centuries_since_j2000()));
+            push(1, Unit::Day, catch(|| a.to_jde_et_days()));
+            push(1, Unit::Hour, catch(|| a.to_jde_et(Unit::Hour)));
+        } else {
+            push(0, Unit::Second, catch(|| a.to_tdb_seconds()));
+            push(0, Unit::Day, catch(|| a.to_tdb_days_since_j2000()));
+            push(0, Unit::Century, catch(|| a.to_tdb_centuries_since_j2000()));
+            push(1, Unit::Day, catch(|| a.to_jde_tdb_days()));
+        }
+        self.rec.ev(
+            "dyn_view",
+            format!("\"to\":{},\"dur\":{},\"jde\":{},\"views\":[{}]", ts_idx(dy), jres_dur(&dur), jres_dur(&jde), views.join(",")),
+            true,
+        );
+    }
+    /// Epoch::from_et_seconds / from_tdb_seconds
+    pub fn from_dyn_seconds(&mut self, dy: TimeScale, x: f64) {
+        self.rec.episode();
+        let r = if dy == TimeScale::ET { catch(|| Epoch::from_et_seconds(x)) } else { catch(|| Epoch::from_tdb_seconds(x)) };
+        let ok = r.clone().ok();
+        self.rec.ev(
+            "from_view",
+            format!("\"view\":\"plain\",\"ts\":{},\"u\":{},\"x\":{},\"res\":{}", ts_idx(dy), unit_idx(Unit::Second), jf64(x), jres_epoch(&r)),
+            true,
+        );
+        if let Some(e) = ok {
+            self.e = e;
+        }
+    }
     pub fn round_trip(&mut self, via: TimeScale) {
         let a = self.e;
         let r = catch(|| a.to_time_scale(via).to_time_scale(a.time_scale));
@@ -555,8 +601,23 @@ pub fn c07(rec: &mut Rec, lm: &Landmarks, rng: &mut Rng, thorough: bool) {
                 m.eload_dur(src, ns_dur(v + 3_155_716_800i128 * NS_S as i128));
                 m.to_dur(dy, 1);
                 m.round_trip(dy);
+                m.dyn_view(dy);
             }
         }
+    }
+    // the float constructors in the dynamical scales, then every view of the result
+    for i in 0..(if thorough { 6_000 } else { 300 }) {
+        let dy = DYN[i % 2];
+        let x: f64 = match i % 4 {
+            0 => (rng.below(2_000_000_000) as f64 - 1.0e9) + rng.below(1000) as f64 / 1000.0,
+            1 => rng.below(1_000_000) as f64 * 0.000_001,
+            2 => (rng.i128().rem_euclid(2 * span) - span) as f64 / 1.0e9,
+            _ => [0.0, -0.0, 1.0, -1.0, 0.5, 1.0e-9, 32.184, 43_200.0, 6.3e11, -6.3e11][(i / 4) % 10],
+        };
+        m.from_dyn_seconds(dy, x);
+        m.dyn_view(dy);
+        m.to_scale(UNIF[i % 6]);
+        m.dyn_view(DYN[(i / 2) % 2]);
     }
     // ET <-> TDB directly
     for _ in 0..(if thorough { 4_000 } else { 200 }) {
